@@ -80,7 +80,12 @@ fn repo() -> String {
 
 /// Type-check all probes; returns name -> compiled?
 fn check_probes() -> Result<std::collections::HashMap<String, bool>, String> {
-    let dir = PathBuf::from("/verif/work/c12probes");
+    // self-test mode (VERIF_REPO): everything next to the scratch copy, nothing shared with
+    // a run against /repo
+    let dir = match std::env::var("VERIF_REPO") {
+        Ok(r) => PathBuf::from(r).parent().unwrap().join("c12probes"),
+        Err(_) => PathBuf::from("/verif/work/c12probes"),
+    };
     let _ = std::fs::remove_dir_all(&dir);
     std::fs::create_dir_all(dir.join("examples")).map_err(|e| e.to_string())?;
     std::fs::create_dir_all(dir.join("src")).map_err(|e| e.to_string())?;
@@ -93,7 +98,13 @@ fn check_probes() -> Result<std::collections::HashMap<String, bool>, String> {
         ),
     )
     .map_err(|e| e.to_string())?;
-    std::fs::copy(format!("{}/Cargo.lock", repo()), dir.join("Cargo.lock")).map_err(|e| e.to_string())?;
+    // a git worktree of the repository has no Cargo.lock (it is not tracked): the harness
+    // workspace's copy pins the same versions
+    let lock = [format!("{}/Cargo.lock", repo()), "/repo/Cargo.lock".to_string(), "/verif/mc/Cargo.lock".to_string()]
+        .into_iter()
+        .find(|p| std::path::Path::new(p).exists())
+        .ok_or("no Cargo.lock found")?;
+    std::fs::copy(lock, dir.join("Cargo.lock")).map_err(|e| e.to_string())?;
     for p in &PROBES {
         std::fs::write(dir.join("examples").join(format!("{}.rs", p.name)), format!("{HEAD}{}\n", p.body))
             .map_err(|e| e.to_string())?;
